@@ -121,8 +121,23 @@ def run(eng, ctx):
             reads = [e for e in body_effects if e.kind == "call" and is_self_call(e.term, m.prim.name)]
             if q == m.read.qualname and reads and reads[0] is body_effects[0] and is_const(reads[0].term[3][0]) and reads[0].term[3][0][1] >= 1:
                 eofret = [e for e in body_effects if e.kind == "return" and e.handler is not None and "EOFError" in norm(e.handler.type)]
+                if not eofret:
+                    # or the EOFError handler makes the loop condition false (the loop variable gets the end-of-data result)
+                    from .util import iteration_ends
+
+                    tst = info.get("test")
+                    for k_, st_ in iteration_ends(info):
+                        if any(c[0] == "caught" and "EOFError" in c[3] and pol for c, pol in st_.guards) and tst is not None:
+                            if tst[0] == "cmp" and tst[1] == "is" and tst[2][0] == "loop" and tst[3] == ("const", None):
+                                v_ = st_.env.get(tst[2][2])
+                                if v_ is not None and ((is_const(v_) and v_[1] is not None) or v_[0] == "tuple"):
+                                    eofret.append(st_)
+                            elif tst[0] == "loop":
+                                v_ = st_.env.get(tst[2])
+                                if v_ is not None and is_const(v_) and not v_[1]:
+                                    eofret.append(st_)
                 if eofret:
-                    witness = "each iteration first reads >= 1 byte of the finite stream; an empty read raises EOFError whose handler returns"
+                    witness = "each iteration first reads >= 1 byte of the finite stream; an empty read raises EOFError whose handler returns (or makes the loop condition false)"
             # W2: loops that call a consumer and exit (return/break) when it reports nothing
             if witness is None:
                 cons = [e for e in body_effects if e.kind == "call" and (e.term[2][0] == "attr" and e.term[2][2] in ("_recv", "read", "readline", "recv") or is_self_call(e.term, eng.socket_receiver.split(".")[-1]))]
